@@ -1496,6 +1496,8 @@ class C14(Base):
             if isinstance(c, list):
                 for x in c:
                     walk(x, d * 2)
+            elif c is None:
+                items.append((None, d))
             else:
                 items.append((set(chords.from_shorthand(c)), d))
 
@@ -1784,8 +1786,8 @@ def gen_chords(rng, depth=0):
     out = []
     for _ in range(rng.randrange(1, 5)):
         r = rng.random()
-        if r < 0.15 and depth == 0:
-            out.append(None)
+        if r < 0.15:
+            out.append(None)  # a rest, at any nesting level
         elif r < 0.35 and depth < 2:
             out.append(gen_chords(rng, depth + 1))
         else:
@@ -1928,7 +1930,7 @@ class C11(Base):
             return
         L, acc, o2, p2 = expect_transpose(name, octave, sh, up)
         if p2 < 0 or o2 < 0:
-            return
+            self.probes["transposed_below_octave_0"] += 1  # no floor applies to transposition: the pitch goes down exactly
         try:
             n[0].transpose(sh, up)
             exc = None
@@ -1954,8 +1956,6 @@ class C11(Base):
         sh = op["sh"]
         first_up = op.get("first_up", True)
         L, acc, o2, p2 = expect_transpose(name, octave, sh, first_up)
-        if p2 < 0 or o2 < 0:
-            return
         self.clauses["C11.round_trip"] += 1
         try:
             n[0].transpose(sh, first_up)
@@ -2067,6 +2067,23 @@ class C11(Base):
         self.trace.ev("track", len(t))
         self.note_outcome("track", "accepted", self.state())
 
+    def do_track_fc(self, op):
+        """a track built by the library itself from a chord list: items that do not
+        fit are split across bar lines by from_chords"""
+        from mingus.containers.track import Track
+
+        t = Track()
+        try:
+            t.from_chords(op["chords"], op["duration"])
+        except Exception as e:
+            self.trace.ev("track_fc_exc", type(e).__name__)
+            return
+        if len(t) > 1:
+            self.probes["track_from_chords_with_splits"] += 1
+        self.conts.append({"kind": "track", "obj": t, "model": self._read(t, "track")})
+        self.trace.ev("track_fc", len(t))
+        self.note_outcome("track_fc", "accepted", self.state())
+
     def _read(self, obj, kind):
         if kind == "nc":
             return [safe_notes(obj)]
@@ -2102,8 +2119,6 @@ class C11(Base):
             for (name, octave) in e:
                 if what == "transpose":
                     L, acc, o2, p2 = expect_transpose(name, octave, sh, up)
-                    if p2 < 0 or o2 < 0:
-                        possible = False
                     w.append((L, p2))
                 elif what == "augment":
                     w.append((aug_name(name), octave))
@@ -2230,8 +2245,10 @@ def gen_c11(rng, tier):
     nc = 0
     if cfg["mode"] != "notes":
         for _ in range(rng.randrange(1, 4)):
-            k = rng.choice(["nc", "bar", "track", "track"])
-            if k == "nc":
+            k = rng.choice(["nc", "bar", "track", "track", "track_fc"])
+            if k == "track_fc":
+                ops.append({"op": "track_fc", "chords": gen_chords(rng), "duration": rng.choice([1, 1, 2, 0.5, 4])})
+            elif k == "nc":
                 ops.append({"op": "nc", "notes": [s for s in entries(1)[0]["notes"] or [spec()]]})
             elif k == "bar":
                 ops.append({"op": "bar", "meter": rng.choice([[4, 4], [3, 4], [6, 8]]), "entries": entries(rng.randrange(1, 6))})
@@ -2307,8 +2324,8 @@ DESCR = {
     "C11": {
         "rule": "Each run is one seeded history on a world built without aliasing (every Note is created for its place): transpose(shorthand, up) with the interval shorthands of size 0-11, augment, diminish, change_octave/octave_up/octave_down and up-then-down round trips on notes; transpose/augment/diminish and augment-then-diminish on note containers, bars and tracks (notes, chords, rests, mixed durations); sequences of them. Model: letter moves by (degree-1), pitch by +-size. Non-trivial = at least two operations applied. Distinct = distinct run shape.",
         "clauses": ["C11.exact", "C11.round_trip", "C11.lift", "C11.aug_dim", "C11.octave_floor"],
-        "probes": ["grid:up", "grid:down", "container_with_rest", "octave_floor_hit", "skipped_outside_name_domain"],
-        "assumptions": ["the single-note clauses are pure functions of their input; they ride along inside histories because the history engine calls them anyway", "names are the 35 spelled names of the property's grid (a letter with at most two sharps or two flats); a history that has drifted to more accidentals is not judged until the note is set again (counted as skipped_outside_name_domain), because the library spells at most six accidentals and the statement's quantifier does not reach there", "round trips are demanded for canonical names only (only sharps or only flats)", "transpositions that would leave octave 0 downwards are not generated; invalid shorthands are not generated (the statement is silent)"],
+        "probes": ["grid:up", "grid:down", "container_with_rest", "octave_floor_hit", "transposed_below_octave_0", "track_from_chords_with_splits", "skipped_outside_name_domain"],
+        "assumptions": ["the single-note clauses are pure functions of their input; they ride along inside histories because the history engine calls them anyway", "names are the 35 spelled names of the property's grid (a letter with at most two sharps or two flats); a history that has drifted to more accidentals is not judged until the note is set again (counted as skipped_outside_name_domain), because the library spells at most six accidentals and the statement's quantifier does not reach there", "round trips are demanded for canonical names only (only sharps or only flats)", "transposition has no floor: from octave 0 downwards the pitch number goes negative exactly (only change_octave clamps); invalid shorthands are not generated (the statement is silent)"],
     },
     "C14": {
         "rule": "Each run is one seeded history on up to three tracks and one composition: Track(instrument) for none/Instrument/Piano/Guitar/MidiInstrument, add_notes with notes, chords and rests in and out of range, track + x, add_bar (only when the track is empty or its last bar is full), from_chords with nested lists and None rests, composition add_track / + / add_note / selected_tracks, and protocol queries (len, indexing, equality against a twin rebuilt from the same items, test_integrity). The acceptance decision is read from what the call reported (the capacity rule is C13's). Non-trivial = at least two operations applied. Distinct = distinct run shape.",
